@@ -36,6 +36,7 @@ def tuplesOk : Bool :=
   && Generated.C04.trigOperators == ["sin", "cos", "tan"]
   && Generated.C04.eqNeUfuncs == ["equal", "not_equal"]
   && Generated.C04.multipleOutput == [("modf", 2), ("frexp", 2), ("divmod", 2)]
+  && Generated.C04.ruleSwaps == ruleSwapsRef.map fun p => (p.1.pyName, p.2.pyName)
 
 /-- `POWER_MAPPING` is `n ↦ n` for multiply and `n ↦ 2 − n` for divide on every sample, and the
     model's affine fit reproduces every sample -/
@@ -45,6 +46,14 @@ def powerMapOk : Bool :=
     | some g => p.2.all (fun s => g s.1 == s.2 && powerMap p.1 s.1.toNat == some s.2) && p.2.length ≥ 2
     | none => false)
   && powerMapRef.all fun p => (Generated.C04.powerMapping.lookup p.1).isSome
+
+/-- the live `_apply_power_mapping` counts what the model's `reduceCount` counts (and every
+    shape has been probed without an axis keyword) -/
+def reduceProbesOk : Bool :=
+  Generated.C04.reduceCountProbes.all (fun p =>
+    let kw : AxisKw := if p.2.1 == -2 then .absent else if p.2.1 == -1 then .none else .idx p.2.1.toNat
+    (reduceCount p.1 kw : Int) == p.2.2)
+  && Generated.C04.reduceCountProbes.any (fun p => p.2.1 == -2 && p.1.length ≥ 2)
 
 /-! ### the rule functions of the model, evaluated at `Rat` on the translator's probe units -/
 
@@ -117,16 +126,6 @@ def labelOf (r : Except Err (Out Rat)) : Option (Option (Dim × Rat)) :=
 def kmLut : Lut Rat := [("m", ⟨1, Dim.dLength, 0, true⟩), ("km", ⟨1000, Dim.dLength, 0, false⟩)]
 def uM : UnitV Rat := ⟨UExpr.sym "m", 1, 0, Dim.dLength, true⟩
 def uKm : UnitV Rat := ⟨UExpr.sym "km", 1000, 0, Dim.dLength, true⟩
-
-/-- the unit `km/m` (as `unyt_array([..], 'km/m')` carries it: not simplified) -/
-def uKmPerM : UnitV Rat := ⟨⟨1, [("km", 1), ("m", -1)]⟩, 1000, 0, Dim.one, true⟩
-
-/-- whether the fix-up terminates -/
-def outFixupTerminates (r : Except Err (Option Rat)) : Option Bool :=
-  match r with
-  | .ok (some _) => some true
-  | .ok none => some false
-  | .error _ => none
 
 /-- the real kernels, at `Rat` -/
 def floorDivQ (a b : Rat) : Rat := ((a / b).floor : Int)
